@@ -552,6 +552,45 @@ pub fn storage_faults(g: &mut Stream, text: &str, other: &str, stats: &mut Count
             stats.inc("faults_fired/index list reordered or with a repeated entry");
         }
     }
+    // numbers spelled unusually (what `usize::from_str` accepts: leading zeros, a leading +), also
+    // for the padding zeros; a multi-byte character somewhere; a very long line (an error message
+    // that quotes part of the line must cut it at a character boundary: seeded change C08-r6-1)
+    for _ in 0..8 {
+        let mut v: Vec<String> = lines.iter().map(|s| s.to_string()).collect();
+        if nl == 0 {
+            break;
+        }
+        let li = g.below(nl as u64) as usize;
+        let mut toks: Vec<String> = v[li].split(' ').map(|s| s.to_string()).collect();
+        match g.below(4) {
+            0 | 1 => {
+                if let Some(ti) = (0..toks.len()).filter(|&i| !toks[i].is_empty()).nth(0).map(|f| f + g.below((toks.len() - f) as u64) as usize) {
+                    if toks[ti].chars().all(|c| c.is_ascii_digit()) && !toks[ti].is_empty() {
+                        toks[ti] = format!("{}{}", g.pick(&["0", "00", "+", "+0", "000000"]), toks[ti]);
+                    }
+                }
+                v[li] = toks.join(" ");
+                out.push((v.join("\n"), "number with a leading + or leading zeros"));
+                stats.inc("faults_fired/number spelled with a leading + or zeros");
+            }
+            2 => {
+                let ch = *g.pick(&["é", "€", "𝄞", "ß", "\u{a0}"]);
+                let pad = " 0".repeat(g.below(24) as usize);
+                let at = g.below(toks.len() as u64 + 1) as usize;
+                toks.insert(at, format!("{}{}", if g.chance(1, 2) { "1" } else { "" }, ch));
+                v[li] = format!("{}{}", toks.join(" "), pad);
+                out.push((v.join("\n"), "multi-byte character in a line"));
+                stats.inc("faults_fired/multi-byte character in a line");
+            }
+            _ => {
+                let filler = "1 ".repeat(10 + g.below(20) as usize);
+                let ch = *g.pick(&["é", "x", "€", "-1"]);
+                v[li] = format!("{}{}{} {}", filler, if g.chance(1, 2) { "1" } else { "" }, ch, v[li]);
+                out.push((v.join("\n"), "long line with a bad token"));
+                stats.inc("faults_fired/long line with a bad token");
+            }
+        }
+    }
     out.push((text.replace('\n', "\r\n"), "CRLF"));
     stats.inc("faults_fired/CRLF line ends");
     out.push((format!("{}garbage 1 2 3\n\u{0}\u{1}", text), "trailing garbage"));
